@@ -7,7 +7,7 @@ import ftutil as U
 
 ID = "C12"
 THEOREMS = ["C12_eq", "C12_eq_pointwise", "C12_content_pointwise", "C12_refl", "C12_sym", "C12_trans", "C12_tensor_eq",
-            "C12_deepcopy_eq", "C12_isEmpty", "C12_count", "C12_nonEmpty", "C12_canonical_unique",
+            "C12_deepcopy_eq", "C12_isEmpty", "C12_count", "C12_nonEmpty", "C12_canonical_unique", "C12_eq_iff_same_pruned",
             "C12_oracle_meaning", "C12_model_meets_spec"]
 COQ_IMPORTS = "From FT Require Import Model.Base Model.Obs Model.C12Eq Model.C12Check."
 CHECK_VO = ["Model/C12Check.v"]
